@@ -1138,7 +1138,16 @@ func fastaOf(o *obj) ([]byte, string, bool) {
 
 // cliStep runs the command-line twin of the step (if it has one and is sampled) and logs the Cli and Drop events.
 func (h *heapRun) cliStep(env *Env, c *cliFront, id string, i int, st Step) {
-	if st.Op == "New" || st.Recv < 1 || st.Recv > len(h.objs) || (c.max > 0 && c.ran >= c.max) {
+	h.cliStepOnce(env, c, id, i, st, false)
+	if _, seeded := st.A["seed"]; seeded {
+		// a seeded command is run a second time: the same seed must give the same output (the two events are marked,
+		// the trace specification compares marked repetitions of one call)
+		h.cliStepOnce(env, c, id, i, st, true)
+	}
+}
+
+func (h *heapRun) cliStepOnce(env *Env, c *cliFront, id string, i int, st Step, again bool) {
+	if st.Op == "New" || st.Recv < 1 || st.Recv > len(h.objs) || (c.max > 0 && c.ran >= c.max && !again) {
 		return
 	}
 	hs := fnv.New32a()
@@ -1216,7 +1225,8 @@ func (h *heapRun) cliStep(env *Env, c *cliFront, id string, i int, st Step) {
 	err := cmd.Run()
 	c.ran++
 	ret := map[string]interface{}{}
-	ev := HeapEvent{H: id, I: i + 1, Op: "Cli", Recv: st.Recv, Ret: ret,
+	_, seeded := st.A["seed"]
+	ev := HeapEvent{H: id, I: i + 1, Op: "Cli", Recv: st.Recv, Ret: ret, Mk: seeded,
 		A: map[string]interface{}{"op": st.Op, "a": st.A, "full": false, "argv": strings.Join(argv, " ")}}
 	if ev.A["a"] == nil {
 		ev.A["a"] = map[string]interface{}{"z": 0}
